@@ -70,12 +70,13 @@ static std::string rec_obs() {
 }
 
 // ------------------------------------------------------------------ exec
-// flt.fmt route=text|direct ty=d|f bits= cls=g|f|e|E prec=<int>|none sign= w= al=d|l|r pad=<code> reff= rend=
+// flt.fmt route=text|direct ty=d|f bits= cls=g|f|e|E prec=<int>|none sign= wid= al=d|l|r pad=<code> reff= rend=
+// (the field width is "wid": "w" is reserved by the framework for the unit width of hex arguments)
 static std::string do_fmt(const Args &a) {
     bool isf = a.get("ty") == "f";
     uint64_t bits = strtoull(a.get("bits").c_str(), nullptr, 16);
     double dv = isf ? (double)f_of((uint32_t)bits) : d_of(bits);
-    std::string cls = a.get("cls"); bool sign = a.num("sign") != 0; long w = (long)a.snum("w");
+    std::string cls = a.get("cls"); bool sign = a.num("sign") != 0; long w = (long)a.snum("wid");
     bool has_prec = a.get("prec") != "none"; long prec = has_prec ? (long)a.snum("prec") : -1;
     std::string al = a.get("al"); int pad = (int)a.num("pad");
     char letter = cls[0];
@@ -178,7 +179,7 @@ static double val_double(const Val &v) { return v.isf ? (double)f_of((uint32_t)v
 static std::string fmt_line(const char *route, const Val &v, char cls, bool has_prec, long prec, bool sign, long w, char al, int pad) {
     std::string reff = ref_format(sign, has_prec ? prec : -1, cls), rend = ref_render(reff, val_double(v));
     return std::string("flt.fmt route=") + route + " " + val_args(v) + " cls=" + cls + " prec=" + (has_prec ? std::to_string(prec) : "none") +
-           " sign=" + (sign ? "1" : "0") + " w=" + std::to_string(w) + " al=" + al + " pad=" + std::to_string(pad) +
+           " sign=" + (sign ? "1" : "0") + " wid=" + std::to_string(w) + " al=" + al + " pad=" + std::to_string(pad) +
            " reff=" + hex_bytes(reff) + " rend=" + hex_bytes(rend);
 }
 static std::string from_line(const char *op, const std::string &ty, const Val &v, int c /* -1 = default argument */) {
@@ -292,7 +293,10 @@ static void gen(Emitter &em, const Options &opt) {
     }
     for (const char *t : {"inf", "-inf", "INF", "infinity", "infinit", "nan", "-nan", "nan(123)", "nan(", "NAN()x", "0x1p-1074", "0x1.fffffffffffffp1023", "0x1p1024",
                           "1e308", "1e309", "-1e309", "1e-324", "4.9e-324", "2.47e-324", "3.4028235e38", "3.4028236e38", "1e39", "1e-46", "0.1", ".5", "5.", ".", "e5", "1e", "1e+", "1e+5x",
-                          " \t\n1.5", "1.5 ", "+.5e-3", "1,5", "0x", "0x.", "0x.8", "0xp1", "1.7976931348623157e308", "1.7976931348623159e308", "123456789012345678901234567890"})
+                          " \t\n1.5", "1.5 ", "+.5e-3", "1,5", "0x", "0x.", "0x.8", "0xp1", "1.7976931348623157e308", "1.7976931348623159e308", "123456789012345678901234567890",
+                          // double rounding: strtof(s) differs from (float)strtod(s)
+                          "1.00000005960464477539062500000000000000000000001", "1.0000001788139343261718750000000000001", "-16777217.000000000000001",
+                          "7.038531e-26", "3.4028235677973366e38", "1.401298464324817e-45", "0.7006492321624085e-45", "0.70064923216240854e-45"})
         EMIT("flt.parse in=" + hex_bytes(t));
     for (const Val &v : vals) {    // what the library itself prints parses back through the same route as libc
         char buf[64]; ::snprintf(buf, sizeof buf, "%.17g", val_double(v)); EMIT("flt.parse in=" + hex_bytes(buf));
